@@ -417,6 +417,15 @@ pub fn items(prop: &str, tier: &str) -> Vec<Item> {
             all.extend(sweep_scenarios(false, false).into_iter().step_by(if th { 1 } else { 3 }));
             if th { all.extend(sweep_scenarios(false, true)); }
             bundle("warm", all.clone(), 40, true, 0, &mut v);
+            // C entry points handed AT_FDCWD (-100) where a root / handle descriptor is expected: whatever the argument check
+            // does, no system call relative to the working directory may be issued
+            {
+                let c = |n: &str| Op::new(n).capi().root(ROOT_IN).num(libc::AT_FDCWD as i64);
+                let ops = vec![c("resolve").path("a"), c("open_subpath").path("a").flags(O_RDONLY | O_NONBLOCK), c("mkdir_all").path("cwd-victim/x").mode(0o755), c("remove_all").path("a"),
+                               c("create_file").path("cwd-victim-file").flags(O_WRONLY).mode(0o644), c("readlink").path("a/b/lnk").bufsize(64), c("rename").path("a").path2("b").flags(0), c("mkdir").path("cwd-victim-dir").mode(0o755)];
+                let scs: Vec<Scenario> = ops.into_iter().map(|op| Scenario { name: format!("K/atfdcwd:{}", op.brief()), backend: "K".into(), op, path: String::new() }).collect();
+                bundle("capi-atfdcwd", scs, 40, true, 0, &mut v);
+            }
             // cold lazies and "no new mount API" on a smaller family
             let small: Vec<Scenario> = all.iter().step_by(if th { 2 } else { 9 }).cloned().collect();
             bundle("cold", small.clone(), 30, false, 0, &mut v);
@@ -491,12 +500,14 @@ pub fn items(prop: &str, tier: &str) -> Vec<Item> {
             // caller kinds: 0 = root with every capability, 1 = uid 1000 without capabilities, 2 = root of a fresh user namespace that
             // owns its mount and pid namespaces (rootless container: may mount a private procfs only if that is not "too revealing")
             let who_name = |w: u8| match w { 0 => "root", 1 => "uid1000", _ => "usernsroot" };
-            let mut cfgs: Vec<(u8, Option<&str>)> = Vec::new();
+            // third component: kernel feature set {0: new mount API, 1: fsopen missing (open_tree clones of the host /proc), 2: neither}
+            let mut cfgs: Vec<(u8, Option<&str>, u8)> = Vec::new();
             for who in [0u8, 1, 2] { for o in [None, Some("hidepid=1"), Some("hidepid=2"), Some("hidepid=ptraceable"), Some("subset=pid"), Some("hidepid=2,subset=pid")] {
                 if who == 2 && !th && !matches!(o, None | Some("hidepid=2") | Some("subset=pid")) { continue; }
-                cfgs.push((who, o));
+                cfgs.push((who, o, 0));
+                if who != 1 && matches!(o, Some("subset=pid") | Some("hidepid=2")) { cfgs.push((who, o, 1)); if th { cfgs.push((who, o, 2)); } }
             } }
-            for (who, opts) in &cfgs {
+            for (who, opts, mapi) in &cfgs {
                 let unpriv = &(*who == 1);
                 let mut scs: Vec<Scenario> = Vec::new();
                 for hk in ["new", "capi", "fromfd"] {
@@ -506,12 +517,12 @@ pub fn items(prop: &str, tier: &str) -> Vec<Item> {
                             if !th && opn == "proc_open_follow" && *class != "missing" { continue; }
                             let mut op = Op::new(opn).base(base).path(sub).flags(O_RDONLY | O_NONBLOCK);
                             match hk { "new" => op = op.procfs("new"), "capi" => op = op.capi(), _ => op = op.procfs("pj") }
-                            scs.push(Scenario { name: format!("{}{}/{}/{}", who_name(*who), opts.map(|o| format!("+{}", o)).unwrap_or_default(), hk, op.brief()), backend: "K".into(), op, path: class.to_string() });
+                            scs.push(Scenario { name: format!("{}{}{}/{}/{}", who_name(*who), opts.map(|o| format!("+{}", o)).unwrap_or_default(), ["", "+nofsopen", "+nomountapi"][*mapi as usize], hk, op.brief()), backend: "K".into(), op, path: class.to_string() });
                         }
                     }
                 }
                 let s0 = scs[0].clone();
-                v.push(Item { scen: s0, plan: Plan::Trace, warm: true, mount_api: 0, max_exec: 1, bundle: scs, others: vec![], proc_opts: opts.map(|s| s.to_string()), unpriv: *unpriv, userns: *who == 2, thread_decoy: None, nofile: Some(256), no_stdin: false });
+                v.push(Item { scen: s0, plan: Plan::Trace, warm: true, mount_api: *mapi, max_exec: 1, bundle: scs, others: vec![], proc_opts: opts.map(|s| s.to_string()), unpriv: *unpriv, userns: *who == 2, thread_decoy: None, nofile: Some(256), no_stdin: false });
             }
             // environment answers of the handle-construction protocol: every single (thorough: every pair of) deviating answer(s)
             let names: Vec<String> = ["fsopen", "fsconfig", "fsmount", "open_tree", "openat", "faccessat2"].iter().map(|s| s.to_string()).collect();
@@ -806,7 +817,7 @@ fn judge(prop: &str, it: &Item, scen: &Scenario, w: &World, eo: &ExecOut, counts
                 if !eo.faults.is_empty() && o.ok && scen.path == "missing" { v.push(("missing-found".into(), "lookup of a path that does not exist succeeded".into())); }
                 // "true errors": an entry that exists but is hidden by the mount options of the /proc at hand must not be reported
                 // as missing to a caller that is able to get a full private procfs (root with capabilities)
-                if scen.path == "masked" && scen.op.name != "proc_readlink" && !it.unpriv && eo.faults.is_empty() && o.panic.is_none() && !o.ok && o.errno == Some(libc::ENOENT) && scen.op.path.as_deref() != Some("1/nonexistent") {
+                if scen.path == "masked" && scen.op.name != "proc_readlink" && !it.unpriv && it.mount_api == 0 && eo.faults.is_empty() && o.panic.is_none() && !o.ok && o.errno == Some(libc::ENOENT) && scen.op.path.as_deref() != Some("1/nonexistent") {
                     v.push(("existing-reported-missing".into(), format!("privileged lookup of an existing but masked entry reported ENOENT ({})", o.msg.clone().unwrap_or_default().chars().take(160).collect::<String>())));
                 }
             }
